@@ -146,6 +146,11 @@ def no_valid_ranges(rep, prog):
         FromExternalError, whose kind preservation is rule E3-kind-survives)"""
 
         def parse_next(pself, interp, p, inp, info):
+            targs = info.get("targs", [])
+            if len(targs) >= 3 and prog.ty_str(targs[2]).replace(" ", "").startswith("std::vec::Vec<std::vec::Vec<") \
+                    and all(isinstance(x, Tok) for x in pself.leaf.items):
+                # the parser run here yields the alternatives before they are flattened: one list per alternative
+                pself.leaf = ListV([ListV([x]) for x in pself.leaf.items])
             q = p
             while q.kind in ("context", "cut_err"):
                 q = q.args[0]
